@@ -11,6 +11,8 @@ include!("mods.rs");
 
 mod space;
 mod split;
+#[cfg(enum_tools_verif)]
+mod sched;
 
 use proc_macro2::TokenStream;
 use std::io::{Read, Write};
@@ -95,6 +97,8 @@ fn main() {
             }
         }
         "space" => space::main(&args[2..]),
+        #[cfg(enum_tools_verif)]
+        "orders" => sched::main(&args[2..]),
         _ => {
             eprintln!("usage: xpand expand|items|space ...");
             std::process::exit(2);
